@@ -59,8 +59,8 @@ Section P.
     fold (following_after s t).
     destruct t as [cols|cols fe|c|partition cids decls|e|sup cids|range partition sort|cids| |cids| | | | ];
       try (intro H; injection H as <-; cbn [s_following s_required s_curr_rev s_avail notsel];
-           split; [reflexivity | split; [exists []; rewrite app_nil_r; reflexivity |
-             split; [first [reflexivity | rewrite app_nil_r; reflexivity] | first [apply incl_refl | apply incl_appr, incl_refl]]]]).
+           split; [reflexivity | split; [exists []; rewrite !app_nil_r; reflexivity |
+             split; [first [reflexivity | rewrite !app_nil_r; reflexivity] | first [apply incl_refl | apply incl_appr, incl_refl]]]]).
     - (* compute *)
       destruct (can_materialize c _) as [ok mx]. destruct ok; intro H; [|discriminate H]. injection H as <-.
       cbn [s_following s_required s_curr_rev s_avail notsel].
@@ -68,7 +68,7 @@ Section P.
     - (* aggregate *)
       destruct (forallb _ decls); intro H; [|discriminate H]. injection H as <-.
       cbn [s_following s_required s_curr_rev s_avail notsel].
-      split; [reflexivity | split; [exists []; rewrite app_nil_r; reflexivity | split; [reflexivity | apply incl_refl]]].
+      split; [reflexivity | split; [exists []; rewrite !app_nil_r; reflexivity | split; [reflexivity | apply incl_refl]]].
   Qed.
 
   (* the consumed transforms, in walk order, with the state each was met in *)
@@ -86,8 +86,9 @@ Section P.
     induction rp as [|t rest IH]; intros s s' rem why H; cbn [SplitOff.walk] in H.
     - injection H as <- <- <-. exists [], s. repeat split; constructor.
     - destruct (step s t) as [s1 [w|]] eqn:Est.
-      + injection H as <- <- <-. exists [], s. rewrite rev_involutive. repeat split; [constructor|].
-        exists t, (rev rest). cbn [rev]. split; [reflexivity | exact Est].
+      + injection H as <- <- <-. exists [], s.
+        split; [cbn [app]; symmetry; exact (rev_involutive (t :: rest))|]. split; [constructor|].
+        exists t, (rev rest). split; [reflexivity | exact Est].
       + destruct (IH s1 s' rem why H) as (done & s2 & -> & Hc & Hw).
         exists (t :: done), s2. repeat split; [econstructor; eassumption | exact Hw].
   Qed.
